@@ -24,7 +24,7 @@ Definition value_val (coin : N) (gs : groups) : val :=
   end.
 (* TransactionOutput::new(address, value): no datum, no script reference => the legacy array form *)
 Definition output_val (addr : bytes) (coin : N) (gs : groups) : val :=
-  VAlt 0 (VList [VBytes addr; value_val coin gs]).
+  VAlt 0 (VAlt 0 (VList [VBytes addr; value_val coin gs])).   (* array alternative, without the optional data hash *)
 Definition input_val (txid : bytes) (ix : N) : val := VList [VBytes txid; VNat ix].
 
 Definition body_val (ins outs : list val) (fee : N) : val :=
